@@ -102,7 +102,8 @@ def gen_spec(rng, target, depth=0):
             if isinstance(sub, list) and sub and rng.random() < 0.4:
                 return f'{k}.{rng.randrange(len(sub))}'
             return k
-        return rng.choice(['zz', 'a.zz', 'a.0'])
+        # (bare texts that are path strings although they would also parse as Python constants)
+        return rng.choice(['zz', 'a.zz', 'a.0', '0', '1', 'None', 'True', '1.0', '0x1'])
     if r < 0.7:
         names = rng.sample(['zeta', 'out0', 'mid', 'alpha', 'out1', 'b'], rng.randint(1, 3))   # not in sorted order
         return {nm: gen_spec(rng, target, depth + 1) for nm in names}
@@ -188,6 +189,9 @@ def gen_case(seed, tier):
     target = gen_target(rng, fmt)
     mode = rng.choice(['plain', 'plain', 'plain', 'fault', 'fault', 'hostile', 'empty', 'falsy'])
     spec = gen_spec(rng, target)
+    if fmt == 'python' and rng.random() < 0.5:
+        # a Python-literal target may hold tuples: collections all the same (JSON arrays when printed)
+        target = _tuplify(rng, target)
     if not isinstance(spec, (str, dict, list, tuple)):
         spec = []           # (a bare number / None as the whole spec text would be read as a path string)
     if mode == 'falsy':
@@ -242,6 +246,15 @@ def _jsonable_spec(s):
     if isinstance(s, list):
         return [_jsonable_spec(x) for x in s]
     return s
+
+
+def _tuplify(rng, v):
+    if isinstance(v, dict):
+        return {k: _tuplify(rng, x) for k, x in v.items()}
+    if isinstance(v, list):
+        items = [_tuplify(rng, x) for x in v]
+        return {'__tuple__': items} if rng.random() < 0.6 else items
+    return v
 
 
 def _tag_tuples(s):
@@ -348,7 +361,7 @@ class Trip:
 def build_invocation(case):
     """-> argv, files {path: content}, stdin spec, expected inputs"""
     fmt = case['fmt']
-    target_text = render_target(case['target'], fmt)
+    target_text = render_target(_untag(case['target']) if fmt == 'python' else case['target'], fmt)
     spec = _untag(case['spec'])
     if case['spec_format'] == 'json':
         spec_text = json.dumps(spec)
